@@ -92,6 +92,10 @@ type Term struct {
 	p2   int
 	name string
 	fp   bool // some floating-point operation below this term
+	// known-bits analysis (bit-vectors of width <= 64): bits set in k0 are
+	// known to be 0, bits set in k1 are known to be 1
+	kdone  bool
+	k0, k1 uint64
 }
 
 func (t *Term) IsConst() bool { return t.op == OpConst }
@@ -175,6 +179,12 @@ func (s *Store) mk(op Op, kind Kind, w int, p1, p2 int, args ...*Term) *Term {
 	}
 	s.next++
 	s.tab[k] = t
+	if kind == KBV && w <= 64 {
+		if c := fromKnown(t); c != nil {
+			s.tab[k] = c
+			return c
+		}
+	}
 	return t
 }
 
@@ -190,6 +200,85 @@ func (s *Store) Var(name string, kind Kind, w int) *Term {
 	s.vars[name] = t
 	s.varList = append(s.varList, t)
 	return t
+}
+
+// known returns the bits of t that are fixed whatever the variables are.
+func (t *Term) known() (k0, k1 uint64) {
+	if t.kind != KBV || t.w > 64 {
+		return 0, 0
+	}
+	if t.op == OpConst {
+		return ^t.c & mask(t.w), t.c
+	}
+	if t.kdone {
+		return t.k0, t.k1
+	}
+	m := mask(t.w)
+	switch t.op {
+	case OpAnd:
+		a0, a1 := t.a[0].known()
+		b0, b1 := t.a[1].known()
+		k0, k1 = a0|b0, a1&b1
+	case OpOr:
+		a0, a1 := t.a[0].known()
+		b0, b1 := t.a[1].known()
+		k0, k1 = a0&b0, a1|b1
+	case OpXor:
+		a0, a1 := t.a[0].known()
+		b0, b1 := t.a[1].known()
+		k0 = (a0 & b0) | (a1 & b1)
+		k1 = (a0 & b1) | (a1 & b0)
+	case OpBVNot:
+		a0, a1 := t.a[0].known()
+		k0, k1 = a1, a0
+	case OpShl:
+		if c := t.a[1]; c.IsConst() && c.c < 64 {
+			a0, a1 := t.a[0].known()
+			k0 = (a0<<c.c | (uint64(1)<<c.c - 1)) & m
+			k1 = (a1 << c.c) & m
+		}
+	case OpLShr:
+		if c := t.a[1]; c.IsConst() && c.c < 64 {
+			a0, a1 := t.a[0].known()
+			k0 = (a0>>c.c | ^(m >> c.c)) & m
+			k1 = a1 >> c.c
+		}
+	case OpZExt:
+		a0, a1 := t.a[0].known()
+		k0 = a0 | (m &^ mask(t.a[0].w))
+		k1 = a1
+	case OpExtract:
+		if t.a[0].w <= 64 {
+			a0, a1 := t.a[0].known()
+			k0 = (a0 >> uint(t.p2)) & m
+			k1 = (a1 >> uint(t.p2)) & m
+		}
+	case OpIte:
+		a0, a1 := t.a[1].known()
+		b0, b1 := t.a[2].known()
+		k0, k1 = a0&b0, a1&b1
+	case OpConcat:
+		if t.w <= 64 {
+			a0, a1 := t.a[0].known()
+			b0, b1 := t.a[1].known()
+			sh := uint(t.a[1].w)
+			k0, k1 = a0<<sh|b0, a1<<sh|b1
+		}
+	}
+	t.kdone, t.k0, t.k1 = true, k0&m, k1&m
+	return t.k0, t.k1
+}
+
+// fromKnown returns the constant t must equal when all its bits are known.
+func fromKnown(t *Term) *Term {
+	if t.kind != KBV || t.w > 64 || t.op == OpConst {
+		return nil
+	}
+	k0, k1 := t.known()
+	if k0|k1 == mask(t.w) {
+		return BV(k1, t.w)
+	}
+	return nil
 }
 
 // ---------------------------------------------------------------- bool
@@ -288,6 +377,12 @@ func (s *Store) Eq(x, y *Term) *Term {
 	}
 	if x.IsConst() { // canonical: constant on the right
 		x, y = y, x
+	}
+	if y.IsConst() && x.kind == KBV && x.w <= 64 {
+		k0, k1 := x.known()
+		if k0&y.c != 0 || k1&^y.c != 0 {
+			return tFalse
+		}
 	}
 	// ite(c, k1, k2) == k  with constants: fold
 	if y.IsConst() && x.op == OpIte && x.a[1].IsConst() && x.a[2].IsConst() {
